@@ -30,6 +30,7 @@ def run(ctx):
     else:
         plan = [("mc/SymRes_c33_quick.cfg", 900, 1), ("mc/SymRes_c33_triple.cfg", 2400, 4)]
     cov = symres.run_plan(ctx, PROP, plan, ASPECTS, "ld", skip_load_divergent=OWN)
+    cov.pop("_pool", None)
     return {
         "level": "model_checking",
         "coverage": cov,
